@@ -664,7 +664,7 @@ Definition ffmt_ok (f : ffmt) : bool :=
   && (Z.of_nat (length (ffmt_text f)) <=? 20)
   && match f_scale f with
      | None => true
-     | Some s => match f_kind f with FF => 0 <=? s | _ => (1 <=? s) && (s <=? f_d f + 1) end
+     | Some s => (s <=? INT_MAX) && match f_kind f with FF => 0 <=? s | _ => (1 <=? s) && (s <=? f_d f + 1) end
      end.
 
 (* the integer x (>= 0) can be written in an Iw field *)
